@@ -149,6 +149,7 @@ type Interp struct {
 	noDomain   bool
 	approxDomain bool // accept 'both sides feasible' from the domains without asking the solver
 	fmtDepth   int
+	itabToks   map[string]*Value
 	xPerHarness map[string]int
 	xsamples   []*XSample
 }
@@ -188,6 +189,7 @@ func (p *Path) addPC(c *Term) {
 	p.pcSet[c] = true
 	p.domNote(c)
 	p.kbNote(c)
+	noteRange(c)
 }
 
 func (p *Path) known(c *Term) (bool, bool) {
@@ -497,6 +499,7 @@ func (in *Interp) RunHarness(fn *ssa.Function, deadline time.Time) {
 		p.image = ArrVar("image0")
 		in.path = p
 		farFacts = nil
+		varRanges = nil
 		in.runPath(fn)
 		in.stats.Paths++
 		in.stats.Steps += int64(p.steps)
